@@ -70,6 +70,7 @@ type Ctx struct {
 	prog       *ssa.Program
 	ssaPkgs    map[string]*ssa.Package
 	cg         *CG
+	flow       *FlowAnalysis
 	writerSet  map[*ssa.Function]bool
 
 	rules   []*RuleInfo
